@@ -1,13 +1,188 @@
-(** C18, first version: the model runs; theorems follow in Refine/LinAlg*.v. *)
-From RNT.Model Require Import Base Poly LinAlg.
+(** * C18 Exact rational linear algebra (number-theory-linear: determinant, matrix::inv,
+      solve_linear_system, subspace::{iim, supplement_basis, image_mod_p}, triangular::mul_inv_from_right_exact)
+
+    Statements only; proofs are in Refine/LinAlg*.v. The model (Model/LinAlg.v) is generic over a record
+    of field operations; [fopsQc] is its BigRational instance, the one the correspondence check runs.
+    [qmx n m a] reads a list of rows as an n x m MathComp matrix over Qc (entries outside the stored
+    shape read as 0), [qrv n b] a list as a row vector, [zmx] the same over Z; [\det] is MathComp's
+    Leibniz determinant, [*m] the matrix product. [square a]: every row has [length a] entries.
+    Every theorem is [P]: all inputs, no size bound. *)
+From mathcomp Require Import all_ssreflect ssralg zmodp matrix mxalgebra.
+From mathcomp Require Import ssrZ.
 From Coq Require Import QArith Qcanon.
+From RNT.Model Require Import Base Poly LinAlg.
+From RNT.Refine Require Import QcField LinAlgQc.
+Local Close Scope Z_scope.
+Local Close Scope Q_scope.
+Local Open Scope ring_scope.
 
 Definition q (z : Z) : Qc := Q2Qc (inject_Z z).
+Definition qm (a : list (list Z)) : list (list Qc) := List.map (List.map q) a.
 
-Example determinant_runs :
-  omap this (determinant fopsQc [[q 3; q 2; q 1]; [q (-1); q 2; q 2]; [q (-2); q (-3); q 2]])
-  = Done (33 # 1)%Q.
-Proof. vm_compute. reflexivity. Qed.
+(** ** determinant *)
 
-Theorem determinant_empty : omap this (determinant fopsQc []) = Done (1 # 1)%Q.
-Proof. reflexivity. Qed.
+(** [P] whatever [determinant] returns is the Leibniz determinant (any list of rows; a ragged input
+    that does not panic is read through [qmx]) *)
+Theorem determinant_spec (a : list (list Qc)) (d : Qc) :
+  determinant fopsQc a = Done d -> d = \det (qmx (length a) (length a) a).
+Proof. exact (@determinant_ok a d). Qed.
+
+(** [P] and it does return on every square matrix *)
+Theorem determinant_returns (a : list (list Qc)) :
+  square a -> exists d, determinant fopsQc a = Done d.
+Proof. exact (@determinant_total a). Qed.
+
+Example determinant_ex :
+  square (qm [[3; 2; 1]; [-1; 2; 2]; [-2; -3; 2]]%Z) /\
+  omap this (determinant fopsQc (qm [[3; 2; 1]; [-1; 2; 2]; [-2; -3; 2]]%Z)) = Done (33 # 1)%Q.
+Proof. split; [by repeat constructor|by vm_compute]. Qed.
+
+(** ** matrix::inv *)
+
+(** [P] [Ok b]: b is the two-sided inverse *)
+Theorem inv_spec (a b : list (list Qc)) :
+  inv fopsQc a = Done (Ok b) ->
+  let n := length a in qmx n n b *m qmx n n a = 1%:M /\ qmx n n a *m qmx n n b = 1%:M.
+Proof. exact (@inv_ok a b). Qed.
+
+(** [P] [Err]: the matrix is singular *)
+Theorem inv_err_spec (a : list (list Qc)) (e : not_invertible) :
+  inv fopsQc a = Done (Err e) -> let n := length a in \det (qmx n n a) = 0.
+Proof. exact (@inv_err a e). Qed.
+
+(** [P] a non-singular square matrix gets [Ok] (no panic, no [Err]) *)
+Theorem inv_nonsingular (a : list (list Qc)) :
+  square a -> let n := length a in \det (qmx n n a) != 0 -> exists b, inv fopsQc a = Done (Ok b).
+Proof. exact (@inv_complete a). Qed.
+
+(** [P] a singular square matrix gets [Err] (no panic) *)
+Theorem inv_singular_spec (a : list (list Qc)) :
+  square a -> let n := length a in \det (qmx n n a) = 0 -> inv fopsQc a = Done (Err MatrixNotInvertible).
+Proof. exact (@inv_singular a). Qed.
+
+Example inv_ex_ok :
+  square (qm [[5; 2]; [2; 1]]%Z) /\ exists b, inv fopsQc (qm [[5; 2]; [2; 1]]%Z) = Done (Ok b).
+Proof. split; [by repeat constructor|by eexists; vm_compute]. Qed.
+Example inv_ex_err : inv fopsQc (qm [[1; 2]; [2; 4]]%Z) = Done (Err MatrixNotInvertible).
+Proof. by vm_compute. Qed.
+
+(** ** solve_linear_system: solves x * a = b *)
+
+(** [P] [Ok x]: x * a = b *)
+Theorem solve_spec (a : list (list Qc)) (b x : list Qc) :
+  solve_linear_system fopsQc a b = Done (Ok x) ->
+  let n := length a in qrv n x *m qmx n n a = qrv n b.
+Proof. exact (@solve_ok a b x). Qed.
+
+(** [P] [Err]: the matrix is singular *)
+Theorem solve_err_spec (a : list (list Qc)) (b : list Qc) (e : not_invertible) :
+  solve_linear_system fopsQc a b = Done (Err e) -> let n := length a in \det (qmx n n a) = 0.
+Proof. exact (@solve_err a b e). Qed.
+
+(** [P] a non-singular square system gets [Ok] (no panic, no [Err]) *)
+Theorem solve_nonsingular (a : list (list Qc)) (b : list Qc) :
+  square a -> length b = length a -> let n := length a in \det (qmx n n a) != 0 ->
+  exists x, solve_linear_system fopsQc a b = Done (Ok x).
+Proof. exact (@solve_complete a b). Qed.
+
+Example solve_ex :
+  exists x, solve_linear_system fopsQc (qm [[1; 2]; [3; 4]]%Z) [:: q 5; q 8] = Done (Ok x)
+            /\ List.map this x = [:: (2 # 1)%Q; (1 # 1)%Q].
+Proof. by eexists; split; vm_compute. Qed.
+
+(** ** triangular::mul_inv_from_right_exact *)
+
+(** [P] [Ok c]: c * b = a over the integers *)
+Theorem mul_inv_from_right_exact_spec (a b c : list (list Z)) :
+  mul_inv_from_right_exact a b = Done (Ok c) ->
+  let n := length a in zmx n n c *m zmx n n b = zmx n n a.
+Proof. exact (@mul_inv_ok a b c). Qed.
+
+(** [P] [Err]: b is singular *)
+Theorem mul_inv_from_right_exact_err (a b : list (list Z)) (e : not_invertible) :
+  mul_inv_from_right_exact a b = Done (Err e) -> let n := length a in \det (zmx n n b) = 0.
+Proof. exact (@mul_inv_err a b e). Qed.
+
+(** [P] on square n x n integer input: [Err] when b is singular; [Ok] whenever b is non-singular and an
+    integer C with C * b = a exists (the remaining case, no integer quotient, is the [assert!]) *)
+Theorem mul_inv_from_right_exact_complete (a b : list (list Z)) :
+  let n := length a in
+  zrect n a -> zrect n b -> length b = n ->
+  (\det (zmx n n b) = 0 -> mul_inv_from_right_exact a b = Done (Err MatrixNotInvertible)) /\
+  (\det (zmx n n b) != 0 -> (exists C : 'M[Z]_n, C *m zmx n n b = zmx n n a) ->
+   exists c, mul_inv_from_right_exact a b = Done (Ok c)).
+Proof. exact (@mul_inv_complete a b). Qed.
+
+Example mul_inv_ex :
+  mul_inv_from_right_exact [[10; 0]; [0; -2]]%Z [[10; 0]; [5; 1]]%Z = Done (Ok [[1; 0]; [1; -2]]%Z).
+Proof. by vm_compute. Qed.
+
+(** ** subspace::iim (inverse image): [row_free M] = the rows of M are linearly independent *)
+
+(** [P] [Ok x]: x * M = V (and M has independent rows); [Err LinearlyDependent]: the rows of M are
+    dependent; [Err NotInImage]: the rows of M are independent and no X has X * M = V.
+    (m = number of columns of the first row of M, as in the code.) *)
+Theorem iim_spec (mmat vmat : list (list Qc)) (res : result iim_error (list (list Qc))) :
+  iim fopsQc mmat vmat = Done res ->
+  let n := length mmat in let m := length (List.nth 0 mmat [::]) in let r := length vmat in
+  let M := qmx n m mmat in let V := qmx r m vmat in
+  match res with
+  | Ok x => row_free M /\ qmx r n x *m M = V
+  | Err LinearlyDependent => ~~ row_free M
+  | Err NotInImage => row_free M /\ forall X : 'M_(r, n), X *m M <> V
+  end.
+Proof. exact (@iim_correct mmat vmat res). Qed.
+
+(** [P] on rectangular input (every row of M and V has m entries, at least one row each) [iim] returns
+    without panic, and: [Ok] when the rows of M are independent and V = X * M has a solution,
+    [Err LinearlyDependent] when the rows are dependent, [Err NotInImage] when they are independent
+    and there is no solution *)
+Theorem iim_complete_spec (mmat vmat : list (list Qc)) :
+  let n := length mmat in let m := length (List.nth 0 mmat [::]) in let r := length vmat in
+  (0 < n)%coq_nat -> (0 < r)%coq_nat -> rect m mmat -> rect m vmat ->
+  let M := qmx n m mmat in let V := qmx r m vmat in
+  [/\ row_free M -> (exists X : 'M_(r, n), X *m M = V) -> exists x, iim fopsQc mmat vmat = Done (Ok x),
+      ~~ row_free M -> iim fopsQc mmat vmat = Done (Err LinearlyDependent)
+    & row_free M -> (forall X : 'M_(r, n), X *m M <> V) -> iim fopsQc mmat vmat = Done (Err NotInImage)].
+Proof. exact (@iim_complete mmat vmat). Qed.
+
+Example iim_ex_ok :
+  exists x, iim fopsQc (qm [[1; 0; 1]; [2; 0; 3]]%Z) (qm [[1; 0; -1]]%Z) = Done (Ok x)
+            /\ List.map (List.map this) x = [:: [:: (5 # 1)%Q; (-2 # 1)%Q]].
+Proof. by eexists; split; vm_compute. Qed.
+Example iim_ex_dep : iim fopsQc (qm [[1; 0]; [2; 0]]%Z) (qm [[3; 1]]%Z) = Done (Err LinearlyDependent).
+Proof. by vm_compute. Qed.
+Example iim_ex_notin : iim fopsQc (qm [[1; 0; 1]; [2; 0; 3]]%Z) (qm [[3; 1; 4]]%Z) = Done (Err NotInImage).
+Proof. by vm_compute. Qed.
+
+(** ** subspace::supplement_basis (k = number of rows, n = number of columns of the first row) *)
+
+(** [P] [Ok B]: B has n rows, its first k rows are the input, it is invertible (and the input rows are
+    independent); [Err]: the input rows are dependent (rank < k) *)
+Theorem supplement_spec (mmat : list (list Qc)) (res : result supplement_error (list (list Qc))) :
+  supplement_basis fopsQc mmat = Done res ->
+  let k := length mmat in let n := length (List.nth 0 mmat [::]) in
+  match res with
+  | Ok B => [/\ length B = n, List.firstn k B = mmat, \det (qmx n n B) != 0 & row_free (qmx k n mmat)]
+  | Err _ => ~~ row_free (qmx k n mmat)
+  end.
+Proof. exact (@supplement_correct mmat res). Qed.
+
+(** [P] on a rectangular k x n input, k >= 1: no panic; [Ok] when the rows are independent (rank k),
+    [Err] otherwise *)
+Theorem supplement_complete_spec (mmat : list (list Qc)) :
+  let k := length mmat in let n := length (List.nth 0 mmat [::]) in
+  (0 < k)%coq_nat -> rect n mmat ->
+  (row_free (qmx k n mmat) -> exists B, supplement_basis fopsQc mmat = Done (Ok B)) /\
+  (~~ row_free (qmx k n mmat) -> supplement_basis fopsQc mmat = Done (Err InsufficientRank)).
+Proof. exact (@supplement_complete mmat). Qed.
+
+Example supplement_ex_ok :
+  exists B, supplement_basis fopsQc (qm [[0; 0; 1]; [0; 2; 3]]%Z) = Done (Ok B)
+            /\ List.map (List.map this) B
+               = [:: [:: (0 # 1)%Q; (0 # 1)%Q; (1 # 1)%Q]; [:: (0 # 1)%Q; (2 # 1)%Q; (3 # 1)%Q];
+                     [:: (1 # 1)%Q; (0 # 1)%Q; (0 # 1)%Q]].
+Proof. by eexists; split; vm_compute. Qed.
+Example supplement_ex_err :
+  supplement_basis fopsQc (qm [[1; 0; 1]; [2; 0; 2]]%Z) = Done (Err InsufficientRank).
+Proof. by vm_compute. Qed.
